@@ -60,6 +60,12 @@ def check(run, only=None):
     if only is not None:
         run_cases(run, only)
         return
+    # negative configuration: "every token consumes input" must be refuted by TLC (the reason a channel buffer sized by the
+    # source length cannot replace draining the tokeniser, see LexChan.tla Cap)
+    common.run_tlc("C01_TokenBound", "C01_TokenBound_ok", count=False, timeout=300)
+    neg = common.run_tlc("C01_TokenBound", "C01_TokenBound", expect_fail=True, count=False, timeout=300)
+    if neg["ok"]:
+        raise common.Infra("negative configuration C01_TokenBound was not refuted")
     r = common.run_tlc("C01", "C01_thorough" if thorough else "C01", env={"VERIF_SEED": run.seed}, timeout=3000, heap="12g")
     vecs = r["lines"]
     exp = {v["id"]: v["exp"]["tokens"] for v in vecs}
